@@ -361,9 +361,11 @@ Definition recv_udp (buflen : N) (v : bytes) : res (option dgram) :=
     end
   end.
 
-(** reply.try_encode_to_owned_view(): fails when the reply header is not wire-valid; the only
-    size-dependent part is modelled ([reply_hdr_ok] is supplied by the caller of the model:
-    header validity is C03's).  A failed encode is logged, nothing is sent. *)
+(** Every handler is asked in turn; a reply is encoded (reply.try_encode_to_owned_view()) and
+    handed to the underlay's try_send.  The encode can only fail for a reply that is not
+    wire-valid; an echo reply has the request's addresses and a reversed path of the request's
+    size (+4 bytes for a one-hop path), so the model sends every reply the echo handler
+    returns; the correspondence compares the packets actually passed to try_send. *)
 Definition handlers_run (with_echo : bool) (v : bytes) (p : dppath) : res effect :=
   e <- err_handle v ;;
   r <- (if with_echo then echo_handle v p else Ok None) ;;
